@@ -100,7 +100,8 @@ def coord_to_index(coord, coords, include_stop=False):
 
 
 def gen_coord_list(start, step, count):
-    return np.arange(start, start + step*count, step)
+    # Exactly `count` entries: a float `stop` can be off by an ulp and yield count+1
+    return start + step * np.arange(count)
 
 
 def bytes_to_double(bytes):
